@@ -5,7 +5,8 @@ CHECKS = {
         pkg='./c05', test='TestC05', level='exploration',
         level_text=('Generated and enumerated inputs compared with an independent textbook AES-IGE, the MTProto-1.0 KDF and a '
                     'conformant key-exchange peer; all wrapper payload lengths 0..600 (4096 thorough) x nonce leading-zero classes '
-                    'are enumerated. Exploration is the right level: the domain is infinite but the failure classes (block chaining, '
+                    'are enumerated. Caller buffers are handed over as windows of larger arrays with sentinel bytes behind them, so a write into the spare '
+                    'capacity is seen as well. Exploration is the right level: the domain is infinite but the failure classes (block chaining, '
                     'length residues, leading zeros) are reachable by construction.'),
         technique='property-based differential testing (rapid) + exhaustive enumeration of length residues against a reference AES-IGE',
         quick=dict(shards=4, checks=6000),
@@ -34,7 +35,7 @@ CHECKS = {
               "sender's parity, seq_no, ack flag, body of 0..65536 bytes); c2s: Encrypted.Serialize is opened by the reference server; s2c: a "
               'reference-sealed packet with 0-15 padding bytes is opened by DeserializeEncrypted; plain: exact byte layout. Non-trivial: '
               'body length > 0; distinct by hash of all inputs.'),
-        must_hit=['c2s:len%%16=%d' % r for r in range(16)] + ['s2c:len%%16=%d' % r for r in range(16)] + ['c2s:ack=true', 'c2s:ack=false', 'plain:len%16=0', 'concurrent:c2s', 'concurrent:s2c'],
+        must_hit=['c2s:len%%16=%d' % r for r in range(16)] + ['s2c:len%%16=%d' % r for r in range(16)] + ['c2s:ack=true', 'c2s:ack=false', 'c2s:derived-fields-stale', 'c2s:derived-fields-consistent', 'plain:len%16=0', 'concurrent:c2s', 'concurrent:s2c'],
         assumptions=['crypto/aes, crypto/sha1 of the standard library', 'client seq_no counter is even and client msg_ids are multiples of 4 (as the client produces them)',
                      'padding content is not compared (the protocol leaves it free)'],
     ),
@@ -61,14 +62,15 @@ CHECKS = {
         thorough=dict(shards=16, checks=1200000, budget_s=3000, fuzz=[dict(target='FuzzResolve', time='120s')]),
         level_text=('Grammar-generated links over the statement\'s structured domain with an oracle for the asserted sub-domain, arbitrary '
                     'strings for totality, the full cross product scheme x host x port x path shape x tail enumerated, and (thorough) '
-                    'coverage-guided native fuzzing for totality/determinism.'),
+                    'coverage-guided native fuzzing for totality/determinism. The asserted links of a run are finally resolved from 8 goroutines at once: '
+                    'each caller must get the answer for its own link.'),
         technique='property-based testing with a grammar generator (rapid) + enumerated cross product + native fuzzing (thorough)',
         rule=('links = scheme {"",http,https (any case),tg,ftp,ws,mailto,//} x host {5 reserved, look-alikes, upper-case, empty} x port x path shape '
               '{user,join,bare,slash,two,three,emptyjoin,trailing,doubleslash,escaped} over ASCII/Unicode names x tail; 10% arbitrary strings. '
               'Asserted: reserved host + http(s) or scheme-less without port -> /<name> = user lower-cased, /joinchat/<token> = invite, other '
               'shapes/hosts/schemes = error; accepted either way (totality only): upper-case hosts, percent-escapes, //host, scheme-less with port. '
               'Non-trivial: the string parses as a URL with non-empty host or path; distinct by hash of the link.'),
-        must_hit=['asserted:user', 'asserted:join', 'asserted:err', 'totality-only', 'soup', 'path=bare', 'scheme=""', 'host=lookalike'],
+        must_hit=['asserted:user', 'asserted:join', 'asserted:err', 'totality-only', 'soup', 'path=bare', 'scheme=""', 'host=lookalike', 'concurrent:resolutions'],
         assumptions=['net/url parsing of the standard library defines what host/path a link has', 'strings.ToLower defines lower-casing'],
     ),
     'C17': dict(
@@ -83,7 +85,7 @@ CHECKS = {
               'all catalogued names, near misses of rows, mutated names, arbitrary strings with % verbs. Non-trivial: text non-empty and one of '
               '{row match, known name, unknown text}; distinct by hash of (code,text).'),
         must_hit=['row:param-int', 'row:param-absent', 'row:param-non-numeric', 'row:param-out-of-range', 'row:param-negative', 'known-name',
-                  'unknown-text', 'unknown-text-with-percent', 'client:errors', 'client:migrate', 'client:migrate-unconfigured'] + ['row%02d' % i for i in range(15)],
+                  'unknown-text', 'unknown-text-with-percent', 'client:errors', 'client:migrate', 'client:migrate-unconfigured', 'client:data-centre-known-to-another-client-only'] + ['row%02d' % i for i in range(15)],
         assumptions=['for a matching row whose parameter is not a decimal int the statement fixes only: no panic, Code kept; Message may be the text or the X form (accepted either way), "+5" likewise',
                      'the catalogue of documented descriptions is read from errors.go as data'],
     ),
@@ -213,7 +215,7 @@ CHECKS = {
         technique='structure-aware mutation fuzzing driven by rapid + exhaustive prefix truncation per constructor + native coverage-guided fuzzing (thorough)',
         rule=('case = (bytes, target: unknown object | named Go type, vector hints). Bytes come from valid encodings built by the C01 generator with 0..3 mutations, from '
               'hand-built containers / gzip_packed objects, or are byte soup. Non-trivial: at least one mutation or hostile construction was applied; distinct by hash of (bytes,target,hints).'),
-        must_hit=['mut:truncate', 'mut:replace-word', 'mut:replace-constructor-id', 'mut:vector-count', 'mut:length-byte', 'mut:splice', 'mut:append', 'mut:container-counts-sizes',
+        must_hit=['mut:nested-vectors', 'mut:vector-inside-vector', 'mut:truncate', 'mut:replace-word', 'mut:replace-constructor-id', 'mut:vector-count', 'mut:length-byte', 'mut:splice', 'mut:append', 'mut:container-counts-sizes',
                   'mut:gzip-valid', 'mut:gzip-truncated-stream', 'mut:gzip-garbage', 'mut:gzip-nested', 'mut:byte-soup', 'target:unknown-no-hints', 'target:unknown-with-hints',
                   'target:vector-with-hints', 'target:named-seed-type', 'target:named-other-type', 'seed:mtproto-object', 'seed:int128/256', 'outcome:decoded', 'outcome:refused-with-error'],
         assumptions=['hints are slice types (what generated methods pass)', 'allocation is measured with runtime/metrics /gc/heap/allocs:bytes around the call',
@@ -290,7 +292,7 @@ CHECKS = {
         technique='metamorphic reseeding and clock-window seed recovery over generated seeds (rapid); falsification of unpredictability, not proof of provenance',
         rule=('case = (kind in {reseed-nonces, reseed-exchange, reseed-srp, clock-nonce, clock-exponent, reseed-exponent-params}, seed value, g, password, dh_prime, g_a). Every case is non-trivial; distinct by hash of the case. '
               'coverage.classes["seed-candidates-tried"] counts the candidate seeds replayed.'),
-        must_hit=['kind:reseed-nonces', 'kind:clock-nonce', 'kind:clock-exponent', 'kind:reseed-srp', 'kind:reseed-exponent-params', 'small-group', 'seed-candidates-tried'],
+        must_hit=['kind:reseed-nonces', 'kind:clock-nonce', 'kind:clock-exponent', 'kind:reseed-srp', 'kind:reseed-exponent-params', 'small-group', 'kind:srp-distinct', 'secure_random_len=1', 'seed-candidates-tried'],
         assumptions=['the statement quantifies over code paths; this check executes the (straight-line) paths under generated environments and can only refute unpredictability',
                      'the exponent\'s seed, if clock-derived, is read within 300 us of entering MakeGAB (it is needed before the exponentiations that dominate the call)'],
     ),
